@@ -169,8 +169,12 @@ class ExcelCompiler:
                     if hasattr(cell, 'start_calcs'):
                         # ranges (CSE Array Formulas) are not iterated on
                         cell.start_calcs()
-                    return eval_ctx(
-                        cell.formula, cse_array_address=cse_array_address)
+                    try:
+                        return eval_ctx(
+                            cell.formula, cse_array_address=cse_array_address)
+                    except Exception:
+                        cell.wip = False
+                        raise
 
             else:
                 def _eval(cell, cse_array_address=None):
